@@ -143,25 +143,40 @@ impl<T: RealNumber + ScalarOperand> BaseVector<T> for ArrayBase<OwnedRepr<T>, Ix
     }
 
     fn approximate_eq(&self, other: &Self, error: T) -> bool {
+        if self.shape() != other.shape() {
+            return false;
+        }
         (self - other).iter().all(|v| v.abs() <= error)
     }
 
     fn add_mut(&mut self, other: &Self) -> &Self {
+        if self.shape() != other.shape() {
+            panic!("A and B should have the same shape");
+        }
         *self += other;
         self
     }
 
     fn sub_mut(&mut self, other: &Self) -> &Self {
+        if self.shape() != other.shape() {
+            panic!("A and B should have the same shape");
+        }
         *self -= other;
         self
     }
 
     fn mul_mut(&mut self, other: &Self) -> &Self {
+        if self.shape() != other.shape() {
+            panic!("A and B should have the same shape");
+        }
         *self *= other;
         self
     }
 
     fn div_mut(&mut self, other: &Self) -> &Self {
+        if self.shape() != other.shape() {
+            panic!("A and B should have the same shape");
+        }
         *self /= other;
         self
     }
@@ -178,6 +193,9 @@ impl<T: RealNumber + ScalarOperand> BaseVector<T> for ArrayBase<OwnedRepr<T>, Ix
     }
 
     fn copy_from(&mut self, other: &Self) {
+        if self.shape() != other.shape() {
+            panic!("Can't copy from an array of a different shape");
+        }
         self.assign(other);
     }
 }
@@ -275,25 +293,40 @@ impl<T: RealNumber + ScalarOperand + AddAssign + SubAssign + MulAssign + DivAssi
     }
 
     fn approximate_eq(&self, other: &Self, error: T) -> bool {
+        if self.shape() != other.shape() {
+            return false;
+        }
         (self - other).iter().all(|v| v.abs() <= error)
     }
 
     fn add_mut(&mut self, other: &Self) -> &Self {
+        if self.shape() != other.shape() {
+            panic!("A and B should have the same shape");
+        }
         *self += other;
         self
     }
 
     fn sub_mut(&mut self, other: &Self) -> &Self {
+        if self.shape() != other.shape() {
+            panic!("A and B should have the same shape");
+        }
         *self -= other;
         self
     }
 
     fn mul_mut(&mut self, other: &Self) -> &Self {
+        if self.shape() != other.shape() {
+            panic!("A and B should have the same shape");
+        }
         *self *= other;
         self
     }
 
     fn div_mut(&mut self, other: &Self) -> &Self {
+        if self.shape() != other.shape() {
+            panic!("A and B should have the same shape");
+        }
         *self /= other;
         self
     }
@@ -390,6 +423,9 @@ impl<T: RealNumber + ScalarOperand + AddAssign + SubAssign + MulAssign + DivAssi
     }
 
     fn copy_from(&mut self, other: &Self) {
+        if self.shape() != other.shape() {
+            panic!("Can't copy from an array of a different shape");
+        }
         self.assign(other);
     }
 
